@@ -90,3 +90,50 @@ pub fn snap<const N: usize>(v: &[u8]) -> [u8; N] {
     a.copy_from_slice(v);
     a
 }
+
+/// Snapshot of a builder output whose length is only known to be <= MAX.
+pub fn snapn<const MAX: usize>(v: &[u8]) -> ([u8; MAX], usize) {
+    let n = v.len();
+    assert!(n <= MAX, "builder output longer than the snapshot buffer");
+    let mut a = [0u8; MAX];
+    a[..n].copy_from_slice(v);
+    (a, n)
+}
+
+/// The children of the container payload [a, b) are exactly the boxes of the given types,
+/// in order, tiling the range; returns their offsets.
+pub fn expect_children<const N: usize>(v: &[u8], a: usize, b: usize, types: [&[u8; 4]; N]) -> [usize; N] {
+    let mut offs = [0usize; N];
+    let mut o = a;
+    let mut i = 0;
+    while i < N {
+        assert!(o + 8 <= b, "child box header overruns its parent");
+        let sz = be32(v, o) as usize;
+        assert!(sz >= 8 && o + sz <= b, "child box size overruns its parent");
+        assert!(is_type(v, o + 4, types[i]), "unexpected child box type / order");
+        offs[i] = o;
+        o += sz;
+        i += 1;
+    }
+    assert!(o == b, "children do not tile their parent exactly (slack)");
+    offs
+}
+
+/// Like `expect_children`, but navigates with the EXPECTED concrete sizes (so that positions
+/// stay concrete for CBMC) and asserts that every declared size equals the expected one.
+pub fn expect_sized<const N: usize>(v: &[u8], a: usize, b: usize, kids: [(&[u8; 4], usize); N]) -> [usize; N] {
+    let mut offs = [0usize; N];
+    let mut o = a;
+    let mut i = 0;
+    while i < N {
+        let (t, sz) = kids[i];
+        assert!(o + sz <= b, "child box overruns its parent");
+        assert!(be32(v, o) as usize == sz, "declared child size differs from the size the layout requires");
+        assert!(is_type(v, o + 4, t), "unexpected child box type / order");
+        offs[i] = o;
+        o += sz;
+        i += 1;
+    }
+    assert!(o == b, "children do not tile their parent exactly (slack)");
+    offs
+}
